@@ -151,7 +151,8 @@ func runCases(cases []kase, workers int) {
 func main() {
 	run = verdict.Start("C12", "exploration",
 		"one case = one HTTP/2 connection (fork server or fork client transport against the raw-frame peer) driven by a generated script: "+
-			"fenced scripts (exact byte counts at quiescent points), unfenced storms (ledger as upper bound), receiver-side overshoot/credit scripts, long mixed-fate histories; "+
+			"fenced scripts (exact byte counts at quiescent points), unfenced storms (ledger as upper bound), receiver-side overshoot/credit scripts, long mixed-fate histories, "+
+			"transport streams aborted (RST_STREAM / cancel) while their granted DATA frame waits for the write lock, followed by an exact connection-window count; "+
 			"distinct = distinct (rig, family, settings, op-kind sequence)")
 	if run.ReplayFile != "" {
 		replay()
@@ -165,7 +166,9 @@ func main() {
 		workers = 4
 	}
 
-	var cases []kase
+	// the abort family first: when it refutes, it does so by a 10 s progress
+	// watchdog, which then runs next to the other cases
+	cases := abortCases()
 	nF := run.Pick(700, 5000)
 	for _, rigName := range []string{"S", "T"} {
 		for i := 0; i < nF; i++ {
@@ -239,6 +242,16 @@ func main() {
 			f = f2
 			f.stall = false
 		}
+		if ac, ok := s.witness.(*abortCase); ok {
+			run.Add("isolation-reruns", 1)
+			f2 := runAbort(ac)
+			if f2 == nil {
+				run.Inconclusive("%s/%s #%d: watchdog expired once (%s) but not when re-run in isolation", s.k.rig, s.k.family, s.k.index, f.msg)
+				continue
+			}
+			f = f2
+			f.stall = false
+		}
 		confirmed++
 		report(s.k, f, s.witness)
 	}
@@ -292,6 +305,9 @@ func finishEvidence() {
 	run.Require("long-history-streams", int64(run.Pick(2*3000, 2*50000)))
 	run.Require("handler-starts", 1000)
 	run.Require("transport-requests", 1000)
+	run.Assume("Family abort (rig T): 'the aborted stream had been granted flow control and was waiting for the write lock' is established by logical steps: the scripted server has read part of another stream's DATA frame from the synchronous pipe and stopped (that writer is inside Write, holding cc.wmu); the request context of the waiter reports the Done() call that awaitFlowControl makes under cc.mu right before it takes the window, and ClientConn.CanTakeNewRequest (one round trip through cc.mu) returned afterwards; the abort is known to have been processed when a second frame for the stream has been taken off the pipe by the read loop (RST_STREAM) or when RoundTrip has returned (cancel). abort_while_waiting_for_write_lock_confirmed counts the aborts for which all of that was observed; whether the granted frame is still written or its bytes are returned to the connection window is left to the transport, the exact count of what upload C delivers decides.")
+	run.Require("abort_while_waiting_for_write_lock_confirmed", int64(run.Pick(20, 1500)))
+	run.Require("abort_final_exact_checks", int64(run.Pick(16, 1500)))
 }
 
 type replayFile struct {
@@ -326,6 +342,13 @@ func replay() {
 				f, w = c.exec()
 			}
 		}
+	case "abort":
+		var ac abortCase
+		if err := verdict.LoadReplay(run.ReplayFile, &ac); err != nil {
+			fmt.Println("cannot read replay file:", err)
+			os.Exit(2)
+		}
+		f, w = runAbort(&ac), &ac
 	}
 	run.Eval(1)
 	if f != nil && f.stall {
